@@ -33,7 +33,7 @@ def run(chk, scratch):
     chk.rule = ("one rich world per seed (6 chromosomes of distinct lengths, hidden isoforms on every chromosome, shared-exon and antisense "
                 "genes, paralogs with multi-mapped reads, read-group tags, --count_exons) run with varied --threads / PYTHONHASHSEED / "
                 "--high_memory / --keep_tmp / repetition / injected task delays and compared byte-wise (command-line header lines ignored) "
-                "with the -t 1, hash-seed-0 reference; non-trivial = distinct (threads, hash seed, mode flags, schedule signature) of runs that differ "
+                "with the -t 1, hash-seed-0 reference; the same reads once more as one experiment of three BAM files grouped by file name (regions where only one or two of the files have reads); non-trivial = distinct (threads, hash seed, mode flags, schedule signature) of runs that differ "
                 "from the reference run in at least one knob")
     base_extra = ["--count_exons", "--read_group", "tag:RG", "--check_canonical"]
     configs = []
@@ -134,6 +134,53 @@ def run(chk, scratch):
             chk.nontrivial.add((c["threads"], c["hs"], tuple(c["flags"]), hash(sig)))
             chk.sample({"config": desc, "schedule": [list(map(str, s)) for s in sig][:2], "files_compared":
                         len(runner.tree_files(os.path.join(out, pipeline.PREFIX))), "differences": len(diffs)}, limit=4)
+            chk.count("files_compared", len([f for f in runner.tree_files(os.path.join(out, pipeline.PREFIX)) if not f.startswith("aux")]))
+            shutil.rmtree(out, ignore_errors=True)
+        # the same reads as ONE experiment of three BAM files, grouped by file name: whole stretches of every chromosome have reads of
+        # one or two of the files only (a file without reads in a region must not shift the numbering of the others)
+        file_of = {}
+        for r_ in w.reads:
+            if r_.name not in file_of and not r_.flag & 4:
+                file_of[r_.name] = (r_.pos0 // 9000 + (1 if (r_.pos0 // 9000) % 5 == 0 else 0)) % 3 if (r_.pos0 // 9000) % 4 else 2
+        bams = [os.path.join(d, "part%d.bam" % k) for k in range(3)]
+        for k in range(3):
+            w.write_bam(bams[k], reads=[r_ for r_ in w.reads if file_of.get(r_.name, 0) == k])
+        fextra = ["--count_exons", "--read_group", "file_name", "--check_canonical"]
+        fref_out = os.path.join(d, "fref")
+        r = pipeline.run(d, fref_out, threads=1, bam=bams, extra=fextra, home=os.path.join(d, "home_fref"))
+        if r["rc"] is None:
+            raise runner.Inconclusive("watchdog expired on the reference run (three files)")
+        if r["rc"] != 0:
+            chk.violation("reference-run-failed", "reference run (three BAM files, grouped by file name) failed: " + pipeline.fail_text(r), {"world_seed": wseed})
+            continue
+        fconfigs = [{"threads": 1, "hs": 0, "flags": ["--high_memory"]}, {"threads": 3, "hs": 2, "flags": []}, {"threads": 2, "hs": 5, "flags": ["--high_memory", "--keep_tmp"]}]
+        if thorough:
+            fconfigs += [{"threads": 16, "hs": 1, "flags": ["--high_memory"]}, {"threads": 5, "hs": 3, "flags": ["--keep_tmp"]}]
+
+        def fone(ic):
+            i, c = ic
+            out = os.path.join(d, "frun%d" % i)
+            rr = pipeline.run(d, out, threads=c["threads"], bam=bams, extra=fextra + c["flags"], hashseed=str(c["hs"]), home=os.path.join(d, "fhome%d" % i))
+            return i, c, out, rr
+        for i, c, out, rr in runner.parallel(fone, list(enumerate(fconfigs)), workers=5):
+            chk.note()
+            desc = "three BAM files grouped by file name, threads=%d hashseed=%s flags=%s" % (c["threads"], c["hs"], " ".join(c["flags"]) or "-")
+            if rr["rc"] is None:
+                chk.inconclusive.append("watchdog expired: " + desc)
+                continue
+            if rr["rc"] != 0:
+                chk.violation("run-failed:" + ("high_memory" if "--high_memory" in c["flags"] else "default"),
+                              "run failed (%s): %s" % (desc, pipeline.fail_text(rr)), {"world_seed": wseed, "config": c})
+                continue
+            diffs = runner.compare_trees(os.path.join(fref_out, pipeline.PREFIX), os.path.join(out, pipeline.PREFIX), exclude=("isoquant.log", "isoquant.log.old", ".params"))
+            diffs = [x for x in diffs if not x[0].startswith("aux")]
+            knob = (["threads"] if c["threads"] != 1 else []) + (["hashseed"] if c["hs"] else []) + [f.strip("-") for f in c["flags"]]
+            for rel, why in diffs:
+                suffix = rel.split(".", 1)[1] if "." in rel else rel
+                chk.violation("output-differs:several-files:%s:%s" % ("+".join(knob), suffix), "%s: %s differs from the reference run (%s)" % (desc, rel, why),
+                              {"world_seed": wseed, "config": c, "file": rel, "bam_files": 3})
+            chk.nontrivial.add((c["threads"], c["hs"], tuple(c["flags"]), "three-files"))
+            chk.count("runs_over_three_bam_files_compared")
             chk.count("files_compared", len([f for f in runner.tree_files(os.path.join(out, pipeline.PREFIX)) if not f.startswith("aux")]))
             shutil.rmtree(out, ignore_errors=True)
         if chk.violations:
